@@ -63,9 +63,18 @@ def make_jail(work, tag):
     return j
 
 
-def run_case(tools, work, tag, children, flags, subpath=None, raw=None):
+def run_case(tools, work, tag, children, flags, subpath=None, raw=None, pre=()):
     j = make_jail(work, tag)
     R = j + "/x/R"
+    # what the unpack root holds before the run (spec: PreStates), e.g. left there by an earlier unpack
+    for e in sorted(pre, key=lambda e: len(e["p"])):
+        pth = R + "/" + "/".join(e["p"][2:])
+        if e["t"] == "link":
+            os.symlink({"up": "..", "upup": "../..", "absout": j + "/OUT", "a": "a"}[e["tg"]], pth)
+        elif e["t"] == "dir":
+            os.mkdir(pth)
+        else:
+            open(pth, "wb").write(b"was here before\n")
     if raw is None:
         root = {"kind": "dir", "name": b"", "mode": 0o755, "children": children(j + "/OUT"), "raw_order": True}
         raw, _ = sqfsimg.encode(root, {"frag": True, "block_size": 4096})
@@ -89,7 +98,7 @@ def run(tier):
     os.environ["ASAN_OPTIONS"] = "detect_leaks=0:abort_on_error=1"
     rng = random.Random(SEED)
     base = {"SkipDupCheck": False, "NoSanityInCreate": False, "NoSanityInFill": False, "NoExcl": False, "Emit": False, "SortCaseFold": False,
-            "NoSanityInAttr": False, "AttrFollowsLinks": False, "ChmodOnLinks": False}
+            "NoSanityInAttr": False, "AttrFollowsLinks": False, "ChmodOnLinks": False, "MkdirReusesAnything": False, "WithPre": True}
     ATTR_DEVS = ("NoSanityInAttr", "AttrFollowsLinks", "ChmodOnLinks")
     cfg = work + "/u.cfg"
     write_cfg(cfg, spec="Spec", constants=base, invariants=["Confined"], deadlock=False)
@@ -100,22 +109,32 @@ def run(tier):
         ev.write()
         return 2
     devres = {}
+    PRE = {}            # forest (json) -> pre-state of the unpack root it has to be run with
     witnesses = []
     emitted = []
-    for dev in ["SkipDupCheck", "NoSanityInCreate", "NoSanityInFill", "SortCaseFold", "AttrFollowsLinks", "ChmodOnLinks"]:
+    for dev in ["SkipDupCheck", "NoSanityInCreate", "NoSanityInFill", "SortCaseFold", "AttrFollowsLinks", "ChmodOnLinks", "MkdirReusesAnything"]:
         c = dict(base)
         c[dev] = True
+        c["WithPre"] = dev == "MkdirReusesAnything"
+        if dev in ("SkipDupCheck", "SortCaseFold"):
+            # since fix c2a2e0f a second barrier stands behind the duplicate test (mkdir re-uses nothing but a directory): these forests are
+            # the ones protected by exactly this PAIR
+            c["MkdirReusesAnything"] = True
         write_cfg(cfg, spec="Spec", constants=c, invariants=["Confined"], deadlock=False)
         r = run_tlc("Unpack", cfg, workers=16, timeout=900, heap="12g")
         ev.tlc(r, "dev " + dev)
         devres[dev] = bool(r["violated"])
-        if r["violated"]:
+        if r["violated"] and dev != "MkdirReusesAnything":                       # (its witnesses need the pre-state: taken from the emission below)
             witnesses.append((dev, r["trace"][0]["forest"]))
         # every forest for which this barrier is the only protection (TLC emits the "bad" ones)
         c["Emit"] = True
         write_cfg(cfg, spec="Spec", constants=c, invariants=["EmitOK"], deadlock=False)
         r = run_tlc("Unpack", cfg, workers=16, timeout=900, heap="12g")
-        em = [x["forest"] for x in bpbind.parse_emitted(r["out"])]
+        raw_em = bpbind.parse_emitted(r["out"])
+        for x in raw_em:
+            if x.get("pre"):
+                PRE[json.dumps(x["forest"], sort_keys=True)] = x["pre"]
+        em = [x["forest"] for x in raw_em]
         ev.set("forests_only_protected_by_%s" % dev, len(em))
         rng.shuffle(em)
         # stratify: nested shapes (two entries below the top level) first, they are the rarer ones
@@ -148,7 +167,7 @@ def run(tier):
 
     def do(job):
         i, f, flags = job
-        res, j = run_case(tools, work, "f%d" % i, lambda outdir: [to_node(n, outdir) for n in f], flags)
+        res, j = run_case(tools, work, "f%d" % i, lambda outdir: [to_node(n, outdir) for n in f], flags, pre=PRE.get(json.dumps(f, sort_keys=True), ()))
         keep = res["diff"] or res["rc"] < 0 or res["rc"] in (124, 134, 139)
         if not keep:
             shutil.rmtree(j, ignore_errors=True)
@@ -163,8 +182,10 @@ def run(tier):
             if i < 3:
                 ev.sample({"kind": "hostile-forest", "forest": f, "flags": flags, "rc": res["rc"]}, limit=5)
             if res["diff"]:
-                rep.violation("unpack-escape", "unpacking a crafted image changed objects outside the unpack root: %s (forest %s, flags %s)"
-                              % (res["diff"], json.dumps(f), flags), artefact=res["img"], data={"forest": f, "flags": flags, "diff": res["diff"]})
+                pre_ = PRE.get(json.dumps(f, sort_keys=True), ())
+                rep.violation("unpack-escape" + ("-preexisting" if pre_ else ""), "unpacking a crafted image changed objects outside the unpack root: %s (forest %s, flags %s%s)"
+                              % (res["diff"], json.dumps(f), flags, ", the root held %s before the run" % json.dumps(pre_) if pre_ else ""), artefact=res["img"],
+                              data={"forest": f, "flags": flags, "diff": res["diff"], "pre": list(pre_)})
             elif res["rc"] < 0 or res["rc"] in (124, 134, 139) or "ERROR: AddressSanitizer" in res["stderr"]:
                 rep.violation("unpack-crash", "rdsquashfs crashes/hangs on a crafted image (rc %d): %s" % (res["rc"], res["stderr"][-150:]),
                               artefact=res["img"], data={"forest": f, "flags": flags})
@@ -199,7 +220,7 @@ def run(tier):
     ev.set("images_unpacked", replays)
     ev.set("images_accepted(exit 0)", accepted)
     ev.set("traces_validated_against_impl", replays)
-    ev.assumptions += ["the unpack root is empty before the run and no concurrent attacker modifies it",
+    ev.assumptions += ["no concurrent attacker modifies the unpack root during the run; before the run it is empty or holds one of the modelled pre-states (a symlink / directory / file named like an entry)",
                        "run as root in the sandbox: chown/mknod/xattr operations are really performed"]
     shutil.rmtree(work, ignore_errors=True)
     return rep.finish()
